@@ -23,6 +23,15 @@ def push_table(chk, F, rule, cfg):
                         # the receiver is (a reborrow of) the fn_mockers field: resolve through the body's ref assignments
                         if pl is not None and _refers_to_field(p_, pl, 'assemble::MockAssembler', 'fn_mockers'):
                             writers.add(fn.root if fn.kind in ('closure',) else fn.defp)
+    if symex.MODE.get('inline_private'):
+        # a step of the registration that was extracted into a helper of its own is analysed as part of the functions that call it
+        for _ in range(3):
+            for w in sorted(writers):
+                if w in F.fns and symex.is_new_helper(F.fns[w]):
+                    ups = set((c.root if c.kind in ('closure', 'promoted') else c.defp) for c, _, _ in F.callers_of(w, collapse_helpers=False))
+                    if ups:
+                        writers.discard(w)
+                        writers |= ups
     # (Sink::push may be the trait's provided method forwarding to another registration function: what matters is that every
     #  function that touches the method table obeys the registration table)
     chk.ob(rule, 'some function of the assembler registers patterns', bool(writers) and (main is None or main.defp in writers), config=cfg, fn=main, site='writers', unrecognised=True, what='no function touches fn_mockers', found=sorted(writers))
